@@ -115,6 +115,12 @@ def _run_seed(args):
     finally:
         shutil.rmtree(tmp, ignore_errors=True)
     detected = bool(rules) and not rules[0].startswith("ANALYSIS-ERROR")
+    if expect_detect == "silent-or-unrecognised":
+        # a twin recorded (seeded/<id>/meta.json, "unrecognised_by") as a shape this check does
+        # not recognise: it may stop with an ANALYSIS-ERROR, it must never report a violation
+        ok = not detected
+        return (name, "ok" if ok else "FAILED",
+                f"expected silence or an analysis error, reported {rules}")
     ok = detected if expect_detect else not rules
     return (name, "ok" if ok else "FAILED",
             f"expected {'a violation' if expect_detect else 'silence'}, reported {rules}")
@@ -136,7 +142,14 @@ def _seed_jobs(prop, mod):
         if prop in e.get("detected_by", []):
             jobs.append((prop, mod.__name__, "seed:" + name, patch, True))
         elif name.startswith("twin"):
-            jobs.append((prop, mod.__name__, "seed:" + name, patch, False))
+            lenient = False
+            try:
+                with open(os.path.join(VERIF, "seeded", name, "meta.json")) as f:
+                    lenient = prop in (json.load(f).get("unrecognised_by") or [])
+            except (OSError, ValueError):
+                pass
+            jobs.append((prop, mod.__name__, "seed:" + name, patch,
+                         "silent-or-unrecognised" if lenient else False))
     return jobs
 
 
